@@ -169,7 +169,14 @@ pub fn run(cx: &mut Ctx, idx: u64) {
             let mut f = u.heads[ti][pi].clone();
             f.extend_from_slice(&d);
             let label = format!("{}/{}", eps::TS3_NAMES[ti], pn);
-            eps::file_eps(cx, &f, &label, &what, if short && pi == 1 { Depth::Full } else { Depth::Lean }, short && pi == 1 && w.len() <= 2);
+            let depth = if !short {
+                Depth::Minimal
+            } else if pi == 1 {
+                Depth::Full
+            } else {
+                Depth::Lean
+            };
+            eps::file_eps(cx, &f, &label, &what, depth, short && pi == 1 && w.len() <= 2);
         }
     }
 }
